@@ -74,9 +74,11 @@ func TestMeta(t *testing.T) {
 	if p == nil {
 		t.Fatalf("unknown property %q", id)
 	}
+	p.Prepare(t, "quick", uint64(envInt("VERIF_SEED", 1)))
+	nq := p.NumPlans("quick")
 	b, _ := json.Marshal(map[string]any{
 		"level": p.Level(), "rule": p.Rule(), "exhaustive_quick": p.Exhaustive("quick"), "exhaustive_thorough": p.Exhaustive("thorough"),
-		"components": p.Components(), "assumptions": p.Assumptions(), "plans_quick": p.NumPlans("quick"), "plans_thorough": p.NumPlans("thorough"),
+		"components": p.Components(), "assumptions": p.Assumptions(), "plans_quick": nq,
 	})
 	fmt.Println(string(b))
 }
